@@ -6,4 +6,9 @@ CHECKS = {
   "Every source of hidden nondeterminism is owned by the explorer: the one place where hash-set iteration order can reach the output is routed through the iteration_order seam, and for every document over the bounded class vocabulary ALL permutations of every hooked list are executed on the real transform and must give byte-identical output; PRNG/seed and error-text determinism and any unhooked hash iteration are checked by in-process and fresh-process repetition of the same documents.",
   "Trusted: the seam is the only hash iteration that reaches output (other sites are only sampled by the repetition legs); vocabulary bound (20 classes, subsets <= 4); use_local_styles=false.",
   "DESIGN.md §4 C06"),
+ "C17": ("model_checking",
+  "parametric boundary exploration: every limit value x every limit-consuming construct at L-1, L, L+1, 2L, with a two-sided verdict and the depth-counter probe",
+  "For every limit kind (depth, loop, var), every L in a small set (and the defaults in the thorough tier), set through the API and through <config>, every construct that consumes the limit is generated at L-1, L, L+1, 2L and executed on the real transform: Err iff the parameter exceeds L, and on Ok the exact number of rendered marker elements (no truncation); orthogonally m siblings (up to 20L / 250 at the default limit) of 20 element kinds must never be rejected; the probe asserts the depth counter returns to 0.",
+  "Trusted: generator arithmetic for the expected parameter; the verdict exactly at the boundary is not asserted for text-content leaves (element dispatched twice) and reuse chains through <specs>; error wording unmatched.",
+  "DESIGN.md §4 C17"),
 }
